@@ -120,7 +120,7 @@ UNITS += [
 
 UNITS += [
     Unit(name="RewriteVisitor", file=RWT, kind="type", anchor="pub struct RewriteVisitor {", rewrites=[R_ATTRS]),
-    Unit(name="rewrite_pre_process", file=RWT, anchor="fn pre_process(&self, path: &PathBuf, id: TreeId) -> ModifierAction", within="impl Visitor for RewriteVisitor {", ret_name="r",
+    Unit(name="rewrite_pre_process", file=RWT, anchor="fn pre_process(", within="impl Visitor for RewriteVisitor {", ret_name="r",
          wrap_open="impl RewriteVisitor {", wrap_close="}",
          functions=["<blob::tree::rewrite::RewriteVisitor as Visitor>::pre_process"],
          contract="""
@@ -129,7 +129,7 @@ UNITS += [
         // paths, so the same tree at another path may rewrite differently
         /*@memo_is_per_path_and_tree*/ r == memo_answer(self.unchanged@, self.changed@, *path, id),
 """),
-    Unit(name="rewrite_post_process", file=RWT, anchor="fn post_process(&mut self, path: PathBuf, id: TreeId, new_id: Option<TreeId>, tree: &Tree)", within="impl Visitor for RewriteVisitor {",
+    Unit(name="rewrite_post_process", file=RWT, anchor="fn post_process(", within="impl Visitor for RewriteVisitor {",
          wrap_open="impl RewriteVisitor {", wrap_close="}",
          functions=["<blob::tree::rewrite::RewriteVisitor as Visitor>::post_process"],
          rewrites=[Rw(r"let mut summary = Summary::default\(\);.*?let _ = self\.summary\.insert\(new_id\.unwrap_or\(id\), summary\);", "vsummary_record(&mut self.summary, id, new_id, tree);", regex=True,
